@@ -293,6 +293,20 @@ pub fn mutate(rng: &mut Rng, img: &mut Vec<u8>) -> &'static str {
             for b in img.iter_mut() {
                 *b = 0;
             }
+            if rng.chance(1, 3) {
+                // larger than the blank-device scan's 1 MiB chunk: the first MiB (and more) is zero,
+                // something else lives further back
+                let nb2 = rng.range(300, 800) as usize;
+                *img = vec![0u8; nb2 * B];
+                let lo = (256 + rng.below(3) * 128) as usize * B;
+                let i = lo.min(img.len() - 1) + rng.below((img.len() - lo.min(img.len() - 1)) as u64) as usize;
+                img[i] = 1 + rng.below(255) as u8;
+                if rng.chance(1, 2) {
+                    let s = rng.range(280, nb2 as u64 - 1) as usize;
+                    img[s * B..s * B + 8].copy_from_slice(b"not-feox");
+                }
+                return "zero-first-mib-not-blank";
+            }
             if rng.chance(1, 2) {
                 let i = rng.below(img.len() as u64) as usize;
                 img[i] = 1 + rng.below(255) as u8;
